@@ -135,6 +135,18 @@ def c05(kind, version, routes, raw, obs, info=None):
         elif len(w) == 1:
             bad.append(("accepted:%s:%s:%s" % (version, call[1], json.dumps(info.get("tags"))),
                         "a %s CALL violating %s was answered with a CALLRESULT" % (call[1], info.get("tags"))))
+    elif kind == "cross":
+        # a payload written for the OTHER version's schema of the same action: judged by this version's schema file
+        # (an evaluation of the file that shares nothing with the library), whichever version was validated first
+        from harness import verdict as V
+        ok = V.independent_verdict(version, "Call", call[1], call[2])
+        if ok is False and (handlers or not (len(w) == 1 and w[0][0] == 4)):
+            bad.append(("cross-accepted:%s:%s" % (version, call[1]),
+                        "a %s CALL that OCPP %s's schema refuses (it fits the other version's) %s: written %r" % (
+                            call[1], version, "reached the handler" if handlers else "was not refused", [x[:3] for x in w[:1]])))
+        if ok is True and not handlers:
+            bad.append(("cross-refused:%s:%s" % (version, call[1]),
+                        "a %s CALL that OCPP %s's schema accepts was refused: %r" % (call[1], version, [x[:3] for x in w[:1]])))
     elif kind in ("ok", "explicit", "raise-ocpp", "raise-other", "bad-res"):
         if not handlers:
             bad.append(("handler-missing:%s:%s:%s" % (kind, version, call[1]),
